@@ -121,6 +121,16 @@ def decorator_shape():
     shape["single_store_site"] = nstores == 1
     miss_test = any(isinstance(n, ast.If) and _src(n.test) == "key not in cache" for n in ast.walk(newfun))
     shape["miss_is_key_absent"] = miss_test
+    # D64: `if getattr(_self, "_is_locked", True) is None: return fun(...)` — no memoisation under a derived lock
+    shape["derived_lock_not_memoised"] = any(
+        isinstance(n, ast.If) and isinstance(n.test, ast.Compare) and len(n.test.ops) == 1 and isinstance(n.test.ops[0], ast.Is)
+        and "_is_locked" in _src(n.test.left) and _src(n.test.comparators[0]) == "None"
+        and len(n.body) == 1 and isinstance(n.body[0], ast.Return) and isinstance(n.body[0].value, ast.Call) and _dec_name(n.body[0].value) == "fun"
+        for n in newfun.body)
+    # D67: the entry keeps the call's arguments alive: cache[key] = (out, args, kwargs), read back as cache[key][0]
+    shape["entry_keeps_arguments"] = any(
+        isinstance(n, ast.Assign) and _src(n.targets[0]) == "cache[key]" and isinstance(n.value, ast.Tuple)
+        and [_src(e) for e in n.value.elts] == ["out", "args", "kwargs"] for n in ast.walk(newfun)) and "out = cache[key][0]" in src
     # _unfold_sequence
     unf = _find_fn(tree, "_unfold_sequence")
     usrc = _src(unf)
@@ -188,7 +198,9 @@ def run():
              f"Definition sequences_unfolded : bool := {b(shape['sequences_unfolded'] and shape['args_unfolded'])}.",
              f"Definition others_by_id : bool := {b(shape['others_by_id'])}.",
              f"Definition kwargs_sorted : bool := {b(shape['kwargs_sorted'])}.",
-             f"Definition erase_resets_cache : bool := {b(shape['erase_cache_calls_erase'] and shape['erase_resets_cache'])}.", "",
+             f"Definition erase_resets_cache : bool := {b(shape['erase_cache_calls_erase'] and shape['erase_resets_cache'])}.",
+             f"Definition derived_lock_not_memoised : bool := {b(shape['derived_lock_not_memoised'])}.",
+             f"Definition entry_keeps_arguments : bool := {b(shape['entry_keeps_arguments'])}.", "",
              "Definition str_in (x : string) (l : list string) : bool := existsb (String.eqb x) l.",
              "Definition pair_in (x : string * string) (l : list (string * string)) : bool :=",
              "  existsb (fun y => String.eqb (fst x) (fst y) && String.eqb (snd x) (snd y)) l.", "",
@@ -205,7 +217,9 @@ def run():
              "  (* the decorator *)",
              "  && consulted_only_when_locked && bypassed_when_compiling && key_from_make_cache_key && tensor_result_not_stored",
              '  && forallb (fun t => str_in t by_value_types) ["int"; "slice"; "str"] && forallb (fun t => str_in t ["int"; "slice"; "str"]) by_value_types',
-             "  && ellipsis_by_value && sequences_unfolded && others_by_id && kwargs_sorted && erase_resets_cache.", ""]
+             "  && ellipsis_by_value && sequences_unfolded && others_by_id && kwargs_sorted && erase_resets_cache",
+             "  (* the repairs the model has switched on: D64 (Model fixed_D64) and D67 (discharges objs_consistent) *)",
+             "  && Bool.eqb derived_lock_not_memoised fixed_D64 && entry_keeps_arguments.", ""]
     path = os.path.join(COQ, "Gen", "C06_Sites.v")
     changed = write_if_changed(path, "\n".join(lines))
     return {"cache_sites": len(cache_sites), "erase_sites": sorted(f"{a}.{c}" for a, c in erase_sites),
